@@ -187,6 +187,22 @@ theorem cancel_overtakes_queued_arm_counterexample :
       ∧ s.lost = [] ∧ s.phase = .polling := by
   decide +kernel
 
+/-- third witness: timer 0 (slot 5, deadline 0) is expired by `run_one` and queued; before it runs a second
+timer is armed and the slot search returns the now free slot 5; the owner of the first timer calls cancel with
+its (stale) event id -/
+def staleIdWitness : List Act :=
+  let l : Act := .loop {}
+  [l, l, .op (.setTimer 0 5), l, l, l, .op (.setTimer 200 5), .op (.cancelTimer 5), l, l, l, l, l, l, l, l]
+
+/-- **Counter-example to "with a cancellation code only if it was cancelled"** (known finding
+`aio-stale-timer-id-cancels-other-timer`): timer handler 1 (deadline 200, never cancelled by anybody, clock
+still 0) is invoked with `canceled`, because `cancel_timer_event` was given the id of timer 0, which had
+already fired; handler 0 still runs once, with success. -/
+theorem stale_timer_id_cancels_other_counterexample :
+    let s := run init staleIdWitness
+    s.log.map (fun e => (e.tok.id, e.code)) = [(0, .ok), (1, .canceled)] ∧ s.clock = 0 ∧ s.timers = [] := by
+  decide +kernel
+
 /-- a step arms a slot that already holds a handler -/
 def DoubleArmAt (s : St) (a : Act) : Prop :=
   (∃ fd e ok er, a = .op (.setIo (some fd) e ok er) ∧ ¬ (s.polling || !s.reactorUp) = true ∧ ok = true ∧
